@@ -42,6 +42,7 @@ package watermark
 //@ ensures forall(Int(t), WmOpen[ref(w)][t] > 0 ==> r <= t, trig(WmOpen[ref(w)][t]))
 //
 //@ func (*watermark.WaterMark).WaitForMark -> err
+//@ blocks wait:mark send:watermark.WaterMark.markC
 //@ trusted blocks until the consumer publishes doneUntil >= ts or the context ends (C13 waiter clause)
 //@ assigns WmLow
 //@ ensures err == nil ==> WmLow[ref(w)] >= ts
@@ -103,7 +104,8 @@ package watermark
 //@ define wmClosedOK(du) = forall(Int(c), (WReg[c] && ChClosed[c]) ==> du >= WTs[c], trig(WReg[c]))
 //
 //@ func (*watermark.WaterMark).process
-//@ props C13
+//@ props C13 C15
+//@ serves send:watermark.WaterMark.markC wait:mark
 //@ requires w != nil && w.markC != nil && !ChClosed[w.markC]
 //@ requires forall(Int(t), PB[t] == 0 && !SeenTs[t], trig(PB[t]), trig(SeenTs[t])) && forall(Int(c), !WReg[c], trig(WReg[c]))
 //@ assigns everything
